@@ -36,7 +36,28 @@ pub fn generate(kind: &str, seed: u64, run: u64, _thorough: bool) -> Scenario {
             m.insert("true_positives".into(), Yaml::Sequence(docs.iter().take(1).map(|d| d.to_yaml()).collect()));
             m.insert("true_negatives".into(), Yaml::Sequence(docs.iter().skip(1).map(|d| d.to_yaml()).collect()));
         }
-        (gen::rule_text(&y), "generated".to_owned(), y)
+        let mut text = gen::rule_text(&y);
+        // YAML features the two loaders must treat alike: merge keys and anchors/aliases
+        if rr.chance(1, 8) {
+            if let Some(det) = y.as_mapping_mut().and_then(|m| m.get_mut("detection")).and_then(|d| d.as_mapping_mut()) {
+                let ids: Vec<Yaml> = det.keys().filter(|k| k.as_str() != Some("condition")).cloned().collect();
+                if let Some(id) = ids.first() {
+                    if let Some(Yaml::Mapping(m)) = det.get_mut(id) {
+                        let mut inner = serde_yaml::Mapping::new();
+                        inner.insert("e".into(), "merged".into());
+                        m.insert("<<".into(), Yaml::Mapping(inner));
+                    }
+                }
+            }
+            text = gen::rule_text(&y);
+        } else if rr.chance(1, 8) {
+            text = format!("anchors:\n  - &v1 foo\n{}", text).replace(": foo\n", ": *v1\n");
+            if serde_yaml::from_str::<Yaml>(&text).is_err() {
+                text = gen::rule_text(&y);
+            }
+        }
+        let y2 = serde_yaml::from_str(&text).unwrap_or(y);
+        (text, "generated".to_owned(), y2)
     };
     let docs = gen::docs_for(&mut dr, &yaml, &knobs, 8);
     let mut sc = Scenario {
@@ -97,6 +118,20 @@ pub fn execute(sc: &Scenario) -> Outcome {
         Loaded::Ok(r) => r,
         _ => {
             stats.inc("load_rejected");
+            // loading from text and from the equivalent value agree on rejection as well
+            if let Ok(y) = serde_yaml::from_str::<Yaml>(&sc.rule_text) {
+                if let Ok(Ok(r2)) = guarded(|| Rule::from_value(y)) {
+                    push_violation(
+                        &mut vs,
+                        Violation::new(
+                            "from_str_and_from_value_disagree",
+                            "accepted".into(),
+                            format!("from_str rejected the text but from_value accepted the equivalent value as {}\n--- text\n{}", show(&r2), sc.rule_text),
+                        ),
+                    );
+                    return Outcome::of(&d, stats, vs);
+                }
+            }
             return Outcome::clean(&d, stats);
         }
     };
